@@ -194,7 +194,8 @@ class DiskCache:
 
         expected_hmac = _compute_hmac_bytes(self._hmac_key, key, raw_bytes)
 
-        if not isinstance(stored_hmac, str):
+        # (compare_digest raises TypeError for a str that is not ASCII)
+        if not isinstance(stored_hmac, str) or not stored_hmac.isascii():
             logger.warning("Cache HMAC has invalid type for key %s — evicting", key)
             self._cache.delete(key)
             self._cache.delete(key + self._HMAC_SUFFIX)
